@@ -42,7 +42,7 @@ def gen(ctx):
                 src = small_values(r, sh, dtype_str(nt, bo)) if dt else rand_array(r, nt, bo, sh)
                 A.append(dict(value=nd_spec(src), dtype=dtype_str(dt, r.choice(['little', 'big'])) if dt else None,
                               chunklen=r.choice([None, 1, 2, max(sh[0], 1), sh[0] + 1]),
-                              metadata=r.choice([None, {'a': {'b': [1, 2.5, None]}, 'ü': 'x'}]),
+                              metadata=r.choice([None, {'a': {'b': [1, 2.5, None, float('inf')]}, 'ü': 'x', 'lim': float('-inf')}]),
                               mutations=r.sample(muts, 3)))
     for _ in range(25 if ctx.quick else 600):
         nt = r.choice(NUMTYPES); bo = r.choice(['little', 'big']); atom = r.choice(p04.ATOMS)
@@ -51,7 +51,7 @@ def gen(ctx):
         subs = None if sublens is None else [nd_spec(small_values(r, (n,) + tuple(atom), dtype_str(nt, bo))) for n in sublens]
         G.append(dict(dtype0=dtype_str(nt, bo), atom=list(atom), indextype=r.choice(INDEXTYPES), subs=subs,
                       sublens=sublens, dtype=dtype_str(dt, 'little') if dt else None,
-                      metadata=r.choice([None, {'a': 1}]), mutations=r.sample(muts[:2] + muts[3:], 2),
+                      metadata=r.choice([None, {'a': 1}, {'a': [1, float('inf')], 'lim': float('-inf')}]), mutations=r.sample(muts[:2] + muts[3:], 2),
                       onto=r.random() < 0.3))
     for kind in ('Array', 'RaggedArray'):
         for ctype in ('xz', 'gz', 'bz2', 'zip', ''):
